@@ -158,6 +158,10 @@ def parseDoc (reg : Registry) (items : List Item) (versionOk : Bool) : PState ×
   | (s, none) => if versionOk then (s, none) else (s, some .validation)
   | r => r
 
+/-- `_init()`: what a parser forgets when it is given another document (`parse()` again). The
+ontology, the per-type counters and the source pattern map stay. -/
+def PState.nextDoc (s : PState) : PState := { s with children := [], initialSeen := false, nEvents := 0 }
+
 /-- Feeding in chunks: each `feed` processes the elements completed by that chunk, carrying the
 state over. -/
 def feedAll (reg : Registry) (s : PState) : List (List Item) → PState × Option PErr
